@@ -183,13 +183,22 @@ class CQN(RLAlgorithm):
 
         # epsilon-greedy
         if random.random() < epsilon:
-            if action_mask is None:
-                action = np.random.randint(0, self.action_dim, size=len(obs))
+            if isinstance(obs, dict):
+                batch_size = next(iter(obs.values())).size(0)
+            elif isinstance(obs, tuple):
+                batch_size = obs[0].size(0)
             else:
+                batch_size = obs.size(0)
+
+            if action_mask is None:
+                action = np.random.randint(0, self.action_dim, size=batch_size)
+            else:
+                # Masked actions score below any allowed one, whatever the random draw
                 action = np.argmax(
-                    (
-                        np.random.uniform(0, 1, (len(obs), self.action_dim))
-                        * action_mask
+                    np.where(
+                        np.asarray(action_mask) > 0,
+                        np.random.uniform(0, 1, (batch_size, self.action_dim)),
+                        -1.0,
                     ),
                     axis=1,
                 )
